@@ -1091,6 +1091,23 @@ def inverse(v, what="inverse"):
     if sf is not None and sf[0].is_one() and ST.head[sf[1][0]].kind == "Inv" and all(x in allfree(v) for x in sf[1][1]) and A and B:
         inner = head_arg_val(sf[1][0], sf[1][1], v.axes)      # Inv(Inv(X)) = X
         return Val(v.axes, inner.terms), neg(logdet(inner, what))
+    if A and B and axsize(A) == D(2) and axsize(B) == D(2) and nt:
+        # literal 2 x 2 matrices: the closed form  [[a, b], [c, d]]^-1 = [[d, -b], [-c, a]] / (ad - bc),  ln det = log(ad - bc)
+        k = len(v.axes)
+
+        def entry(i, j):
+            e = slice_axis(slice_axis(v, k - 2, D(i), D(i + 1)), k - 1, D(j), D(j + 1))
+            return Val(e.axes[:-2], e.terms)
+        a_, b_, c_, d_ = entry(0, 0), entry(0, 1), entry(1, 0), entry(1, 1)
+        det = add(mul(a_, d_), mul(b_, c_), -1)
+        rdet = elementwise("Recip", det)
+
+        def place(x, i, j):
+            x = expand_dims(x, ["k"] * len(x.axes) + [None, None])
+            return embed_axis(embed_axis(x, k - 2, D(i), D(2)), k - 1, D(j), D(2))
+        adj = add(add(place(d_, 0, 0), place(a_, 1, 1)), add(place(b_, 0, 1), place(c_, 1, 0)), -1)
+        inv = mul(expand_dims(rdet, ["k"] * len(rdet.axes) + [None, None]), adj)
+        return inv, elementwise("Log", det)
     occ = _occurring(v, nt)
     bsl = [x for x in occ if x not in mvars]
     hid, order = _find_or_make("Inv", nt, bsl, mvars, True)
@@ -1749,11 +1766,71 @@ def _absorb_inverse(terms, free):
     return terms, False
 
 
+def _absorb_recip(terms, free):
+    """scalar analogue of _absorb_inverse:  Recip(X)[..] * X[..] -> 1  for a value-numbered sum X = sum_t c_t X_t whose summands are
+    spread over several terms with a common cofactor (e.g. det * (1/det) with det = ad - bc)."""
+    H = ST.head
+    cands = {}
+    for ti, (c, n) in enumerate(terms):
+        for fi, (h, ix) in enumerate(n.f):
+            info = H[h]
+            if info.kind != "Recip" or len(info.arg[1]) < 2:
+                continue
+            others = [g for k, g in enumerate(n.f) if k != fi]
+            m0 = dict(zip(info.bslots, ix))
+            for t, (ct, nt_) in enumerate(info.arg[1]):
+                for mm, used in _match_subnet(list(nt_.f), others, dict(m0), frozenset(), None):
+                    pat_bound = [x for x in mm if x not in info.bslots]
+                    rest = [g for k, g in enumerate(others) if k not in used]
+                    rest_vars = {j for _, jx in rest for j in jx}
+                    if any(mm[x] in rest_vars or mm[x] in free for x in pat_bound):
+                        continue
+                    restnet = Net(rest + [("@r", tuple(ix))])
+                    key = (h, tuple(sorted(_net_sig(restnet))))
+                    cands.setdefault(key, []).append((t, ti, c / ct, restnet))
+                    break
+    if "@r" not in H:
+        H["@r"] = HeadInfo("marker")
+    for key, lst in cands.items():
+        h = key[0]
+        need = set(range(len(H[h].arg[1])))
+        groups = []
+        for t, ti, ratio, restnet in lst:
+            for g in groups:
+                if g["ratio"] == ratio and iso(g["rest"], restnet, free):
+                    if t not in g["have"] and ti not in g["have"].values():
+                        g["have"][t] = ti
+                    break
+            else:
+                groups.append(dict(ratio=ratio, rest=restnet, have={t: ti}))
+        for g in groups:
+            if set(g["have"]) == need and len(set(g["have"].values())) == len(need):
+                kill = set(g["have"].values())
+                newt = [(c, n) for k, (c, n) in enumerate(terms) if k not in kill]
+                keep = tuple(q for q in g["rest"].f if q[0] != "@r")
+                # indices of the Recip head that no other factor uses and that are summed contribute their size
+                mark = [q for q in g["rest"].f if q[0] == "@r"][0][1]
+                used_vars = {j for _, jx in keep for j in jx}
+                coef = g["ratio"]
+                for j in set(mark):
+                    if j not in free and j not in used_vars:
+                        coef = coef * ST.size[j]
+                newt.append((coef, Net(keep)))
+                return newt, True
+    return terms, False
+
+
 def normalize_terms(terms, free, _absorb=True):
     out = _normalize_terms0(terms, free)
     if _absorb and any(ST.head[h].kind == "Inv" for _, n in out for h, _ in n.f):
         for _ in range(40):
             out2, ch = _absorb_inverse(out, set(free))
+            if not ch:
+                break
+            out = _normalize_terms0(out2, free)
+    if _absorb and any(ST.head[h].kind == "Recip" and len(ST.head[h].arg[1]) > 1 for _, n in out for h, _ in n.f):
+        for _ in range(60):
+            out2, ch = _absorb_recip(out, set(free))
             if not ch:
                 break
             out = _normalize_terms0(out2, free)
